@@ -70,6 +70,12 @@ CHECKS = {
                      "vertices, segments, degrees and shared junction objects, exact area, box() = bounding box of the control points over all min/max path cells, sign of "
                      "float(curve) = orientation; chains with a symbolic junction gap are rejected on every path where the gap exceeds 1e-9.",
                 technique="symbolic execution of the real code (SYMX) + z3 per path cell"),
+    "C20": dict(level="model_checking", design="4/C20",
+                text="ShapePloter.plot executed under SYMX with matplotlib Path/PathPatch/axes replaced by recorders, boundary chains of degree 1..3 with symbolic control points "
+                     "and catalogue shapes of all kinds translated symbolically: the recorded vertex/code sequences are, as identical polynomials, the boundary retraced segment by "
+                     "segment and closed; one filled path per component, one outline per curve, background iff unbounded, Empty/Whole rules; control points unchanged. Replays "
+                     "run on real matplotlib (Agg) objects.",
+                technique="symbolic execution of the real code (SYMX) with recorder stubs + z3 path exploration; structural identity of recorded paths"),
 }
 NA = {}
 
